@@ -112,6 +112,22 @@ def _flush(scn, batch, acc):
     batch.clear()
 
 
+def detail(run, scn, devs):
+    """Re-run a schedule recording where each deviation happened (for the replay file)."""
+    obs = run(scn, devs, want_where=True)
+    if scn.kind == "threads":
+        sw = [dict(decision=k, running=("main" if a < 0 else f"sender {a}"), next=f"sender {b}",
+                   at=(f"{w[0]}:{w[1]}" if isinstance(w, tuple) else str(w)))
+              for (k, a, b, w) in obs.where if k in devs]
+    else:
+        sw = [dict(decision=k, choice=c, ready_handles=n) for (k, c, n) in obs.where if k in devs]
+    return dict(switches=sw, model_steps=list(obs.labels),
+                callback_marks=[f"{k}{uid}.{name}@{a}" for k, uid, name, a in obs.marks],
+                sends=[dict(sender=a, uid=u, returned=r, exc=e) for a, u, r, e in obs.sends],
+                nested_sends=[dict(sender=a, parent=p, uid=u, returned=r, exc=e) for a, p, u, r, e in obs.nested],
+                final_state=obs.final_state, queue_left=obs.queue_left, follow_up_send=obs.probe)
+
+
 def explore(task):
     """Worker. task = (scenario json, roots, bound, deadline, expand, max_runs).
     Runs every schedule in `roots`; with `expand` also all their descendants within `bound`.
@@ -147,8 +163,8 @@ def explore(task):
             if len(acc.samples) < 2:
                 acc.samples.append(dict(scenario=scn.describe(), schedule=ds, outcome=out))
         if fails:
-            if len(acc.spec_fail) < 5:
-                acc.spec_fail.append((ds, fails, out))
+            if len(acc.spec_fail) < 3:
+                acc.spec_fail.append((ds, fails, out, detail(run, scn, devs)))
             continue
         if obs.map_notes:
             acc.map_unavailable += 1
